@@ -88,6 +88,7 @@ func (g *Gen) genChangeMappingHistory() {
 		}
 	})
 	if !okp {
+		sg.line("xpanic 1 foreach")
 		return
 	}
 	var pos, neg string
@@ -96,6 +97,7 @@ func (g *Gen) genChangeMappingHistory() {
 		pos, neg = showFBins(storeBinsF(res.GetPositiveValueStore())), showFBins(storeBinsF(res.GetNegativeValueStore()))
 	})
 	if !okc {
+		sg.line("xpanic 1 chmap")
 		return
 	}
 	sg.line("chmap 1 2 %s %s %s", hexF(scale), pos, neg)
